@@ -99,6 +99,13 @@ def cluster_scripts():
         {"id": "k2", "scripts": [H("n1", "load", "update"), H("n2", "loadp", "jsonly", "demote")]},
         {"id": "k3", "scripts": [H("n1", "loadp", "jsonly", "update", "demote"), H("n2", "load", "update"), H("n2", "loadp", "demote")]},
         {"id": "k4", "scripts": [H("n1", "loadp", "cancel", "demote"), H("n2", "load", "cancel"), H("n1", "loadp", "demote")]},
+        # crash histories (lock library that breaks a dead same-host process' marker): a process dies between the file
+        # writes of one update; handles loaded before (and after) it then operate
+        {"id": "k5", "modern": True, "scripts": [H("n1", "load", "promote", "update"), H("n1", "loadp!1"), H("n2", "load", "cancel")]},
+        {"id": "k6", "modern": True, "scripts": [H("n1", "load", "update", "cancel"), H("n1", "loadp", "update!1"), H("n1", "loadp", "demote")]},
+        {"id": "k7", "modern": True, "scripts": [H("n1", "load", "jsonly", "update"), H("n1", "loadp", "update!3"), H("n1", "load", "jsonly")]},
+        {"id": "k8", "modern": True, "scripts": [H("n1", "load", "update"), H("n1", "loadp", "update!2"), H("n1", "load", "promote", "demote")]},
+        {"id": "k9", "modern": True, "scripts": [H("n1", "load", "cancel", "promote"), H("n1", "loadp", "demote!1"), H("n1", "loadp", "jsonly!1"), H("n1", "load", "jsonly")]},
     ]
 
 
@@ -112,6 +119,8 @@ def run_cluster(plan, seed=None, path=None, debug=False):
     from harness import scenario
     base = mkbase()
     scn = cluster_scn()
+    if plan.get("modern"):
+        scn["locklib"] = "modern"
     w = World(scn, base, debug=debug)
     out = w.out
     os.makedirs(out, exist_ok=True)
@@ -146,6 +155,12 @@ def run_cluster(plan, seed=None, path=None, debug=False):
                         diverged = {"step": k, "label": lbl, "why": "process cannot move"}
                         break
                     w.do(("step", q.pid))
+                    if q.alive and q.req["op"] == "lock_blocked" and w._step_enabled(q):
+                        w.do(("step", q.pid))        # the lock library breaks the marker,
+                        w.do(("step", q.pid))        # the acquisition is retried and the operation proceeds
+                    if lbl[0] == "Crash" and q.alive:
+                        diverged = {"step": k, "label": lbl, "why": "model says the operation dies part-way, the process lives"}
+                        break
                     if q.alive and q.req["op"] == "lock_blocked":
                         diverged = {"step": k, "label": lbl, "why": "operation blocked on the lock, model says it runs"}
                         break
@@ -163,10 +178,10 @@ def run_cluster(plan, seed=None, path=None, debug=False):
 
 def compare_cops(model_events, tr):
     """cop events predicted by ClusterStore vs observed (pids shifted by the creator process)."""
-    real = [[e["pid"] - 1, e["op"], e["hcver"], e["hjver"], e["dcver"], e["djver"], e["exc"], e["changed"], e["ok"], e["before"]]
-            for e in tr["ev"][tr["sync"]:] if e["e"] == "cop"]
+    real = [[e["pid"] - 1, e["op"], e["hcver"], e["hjver"], e["dcver"], e["djver"], e["ddcver"], e["ddjver"], e["exc"], e["changed"],
+             e["ok"], e["before"]] for e in tr["ev"][tr["sync"]:] if e["e"] == "cop"]
     model = [[e["pid"], e["op"], e["hcver"] if e["loaded"] else -1, e["hjver"] if e["loaded"] else -1, e["dcver"], e["djver"],
-              e["exc"], e["changed"], e["ok"], e["before"]] for e in model_events if e["e"] == "cop"]
+              e["ddcver"], e["ddjver"], e["exc"], e["changed"], e["ok"], e["before"]] for e in model_events if e["e"] == "cop"]
     for i, (a, b) in enumerate(zip(model, real)):
         if a != b:
             return {"index": i, "model": a, "real": b}
